@@ -15,9 +15,9 @@ class Sink:
 
     def __init__(self, where: str, exps: Optional[Dict[str, object]] = None, dec: Optional[int] = 0,
                  needs: Sequence[str] = (), fn: Optional[str] = None, sign: Optional[int] = None,
-                 allow_zero: bool = False, forbids: Sequence[str] = (), note: str = ""):
+                 allow_zero: bool = False, forbids: Sequence[str] = (), note: str = "", deps_only: bool = False):
         self.where = where
-        self.exps = {k: Fraction(v) for k, v in (exps or {}).items()}
+        self.exps = {k: (v if v == "any" else Fraction(v)) for k, v in (exps or {}).items()}
         self.dec = dec
         self.needs = tuple(needs)
         self.forbids = tuple(forbids)
@@ -25,6 +25,7 @@ class Sink:
         self.sign = sign
         self.allow_zero = allow_zero
         self.note = note
+        self.deps_only = deps_only
 
 
 class Case:
@@ -132,6 +133,9 @@ def run_cases(ctx, rule: str, cases: List[Case], aspects=("units", "base", "par"
                     loc = st.fn.loc(st.node)
                 s = shape_of(v)
                 alldeps |= deps_of(v)
+                if sink.deps_only:
+                    n_mono += 1
+                    continue
                 if sh.is_bad(s):
                     problems.append(f"dimensionally inconsistent: {s.why}")
                     n_mono += 1
@@ -147,9 +151,9 @@ def run_cases(ctx, rule: str, cases: List[Case], aspects=("units", "base", "par"
                         continue  # literal-only term (defaults such as RATE_A = 100.)
                     n_mono += 1
                     for sym in tracked:
-                        want = sink.exps.get(sym, Fraction(0))
                         if sink.exps.get(sym) == "any":
                             continue
+                        want = sink.exps.get(sym, Fraction(0))
                         if m.exp(sym) != want:
                             problems.append(f"term {m!r}: {sym}^{m.exp(sym)} (required {sym}^{want})")
                             break
@@ -166,7 +170,7 @@ def run_cases(ctx, rule: str, cases: List[Case], aspects=("units", "base", "par"
             for fb in sink.forbids:
                 if any(fb == d for d in alldeps):
                     problems.append(f"depends on {fb}")
-            want_txt = " ".join(f"{k}^{v}" for k, v in sorted(sink.exps.items()) if k in tracked) or "degree 0 / dimensionless"
+            want_txt = " ".join(f"{k}^{v}" for k, v in sorted(sink.exps.items()) if k in tracked and v != "any") or "degree 0 / dimensionless"
             ctx.ob(rule, key, not problems,
                    (f"{sink.where} has shape [{want_txt}" + (f", 1e{sink.dec}" if "dec" in aspects else "") + "]"
                     + (f" and depends on {list(sink.needs)}" if sink.needs and "needs" in aspects else ""))
